@@ -271,6 +271,9 @@ pub fn run(ctx: &mut Ctx) -> Result<(), Stop> {
     let mut desc_steps: Vec<String> = Vec::new();
 
     for step in 0..steps {
+        if ctx.tape.exhausted() {
+            break;
+        }
         let kind = ctx.weighted("c15.op", &[10, 3]);
         hash.u64(kind as u64);
         let mut extra_tokens: Vec<i64> = Vec::new();
